@@ -2,6 +2,8 @@ import IceProofs.Sys2C01LiveFair
 /-!
 # C01 liveness, layer 14 — the invariant of a fair suffix
 
+(The invariant `FInv` itself is in `Sys2C01LiveFairSys`; it no longer contains `KnownSrc`, which is kept as a definition.)
+
 `KnownSrc c s`: the controlling agent `c` knows (as a remote candidate) every address its peer can appear from, so no
 inbound request makes it discover a peer-reflexive candidate — hence no forced tick: its timer is re-armed by its own
 ticks only.  `FInv`: `SysOK` + the timer of `c` is due within 2 s + `KnownSrc`.  Every event of a loss-free suffix
@@ -163,120 +165,5 @@ theorem KnownSrc.keep {s s' : Sys} {c : Bool} (hk : KnownSrc c s) (hp : Paired s
         rw [hmap, ← hla]
         exact hsome _ (hk.1 l hl)
       · trivial
-
-section
-variable (nat blocked : List (Nat × Nat)) (SLA SLB SR : Nat → Prop) (liteA liteB : Bool)
-
-/-- the invariant of a fair suffix -/
-structure FInv (T0 H : Nat) (c : Bool) (s : Sys) : Prop where
-  ok : SysOK nat blocked SLA SLB SR liteA liteB T0 H c s
-  tick : ∃ t, (s.agent c).nextTick = some t ∧ s.now ≤ t ∧ t ≤ s.now + 2000000000
-  known : KnownSrc c s
-
-end
-
-section
-variable {nat blocked : List (Nat × Nat)} {SLA SLB SR : Nat → Prop} {liteA liteB : Bool} {T0 H : Nat} {c : Bool}
-
-/-- a delivery or duplication: the invariant stays, the timer of `c` stays, the pairs of `c` keep state and request
-count (or become Succeeded) -/
-theorem FInv.deliver {s : Sys} (h : FInv nat blocked SLA SLB SR liteA liteB T0 H c s) {k : Nat} (keep : Bool) {hd : Dgram}
-    (hk : s.inflight[k]? = some hd) :
-    FInv nat blocked SLA SLB SR liteA liteB T0 H c (s.deliver k keep).1 ∧
-    Effect T0 s (s.deliver k keep).1 hd (restOf s k keep) ∧
-    ((s.deliver k keep).1.agent c).nextTick = (s.agent c).nextTick ∧
-    BK (s.agent c) ((s.deliver k keep).1.agent c) := by
-  obtain ⟨hok', he⟩ := deliver_effect h.ok keep hk
-  have hmem : hd ∈ s.inflight := List.mem_of_getElem? hk
-  generalize (s.deliver k keep).1 = s' at hok' he ⊢
-  have hmap : ∀ y, s'.mapped y = s.mapped y := fun y => by simp [Sys.mapped, he.net.1]
-  -- every agent keeps its candidates
-  have hlk : ∀ x, ∃ now ex, LK T0 now ex (s.agent x) (s'.agent x) := by
-    intro x
-    rcases he.cases with ⟨_, e, _⟩ | ⟨y, m, _, _, _, _, ho, k1, _⟩
-    · rw [e]; exact ⟨0, none, LK.refl _ _ _ _⟩
-    · by_cases hxy : x = y
-      · subst hxy; exact ⟨_, _, k1⟩
-      · rw [bool_ne_eq_not hxy, ho]; exact ⟨0, none, LK.refl _ _ _ _⟩
-  -- the controlling agent: no forced tick
-  have hcq : (s'.agent c).nextTick = (s.agent c).nextTick ∧ BK (s.agent c) (s'.agent c) := by
-    rcases he.cases with ⟨_, e, _⟩ | ⟨x, m, hm, _, _, hst, ho, _, _⟩
-    · rw [e]; exact ⟨rfl, IdxKeep.refl BKp.refl _⟩
-    · by_cases hxc : x = c
-      · subst hxc
-        rw [hst]
-        apply step_inbound_quiet (h.ok.good x)
-        intro ha
-        have hkd := h.known.2 hd hmem
-        unfold KnownD at hkd
-        rw [hm] at hkd
-        exact hkd ha.2.1 ha.2.2.2
-      · have hcx : c = !x := bool_ne_eq_not (fun e => hxc e.symm)
-        have e : s'.agent c = s.agent c := by rw [hcx]; exact ho
-        rw [e]; exact ⟨rfl, IdxKeep.refl BKp.refl _⟩
-  refine ⟨⟨hok', ?_, ?_⟩, he, hcq.1, hcq.2⟩
-  · obtain ⟨t, ht, h1, h2⟩ := h.tick
-    exact ⟨t, by rw [hcq.1]; exact ht, by rw [he.now]; exact h1, by rw [he.now]; exact h2⟩
-  · obtain ⟨_, _, kc⟩ := hlk c
-    obtain ⟨_, _, kn⟩ := hlk (!c)
-    refine h.known.keep h.ok.paired kn.locals (fun y r hr => ?_) hmap (he.ids c).localPwd ?_
-    · obtain ⟨r', hr', _⟩ := kc.findRemote hr
-      exact ⟨r', hr'⟩
-    · intro d hdm
-      rcases he.cases with ⟨e, _, _⟩ | ⟨x, m, hm, _, _, _, _, _, hfl⟩
-      · rw [e] at hdm; exact Or.inl (mem_of_mem_restOf hdm)
-      · rw [hfl] at hdm
-        rcases List.mem_append.mp hdm with hdm | hdm
-        · exact Or.inl (mem_of_mem_restOf hdm)
-        · have hok := (h.ok.flight hd hmem).hok hm x
-          exact Or.inr ⟨x, _, hdm,
-            (step_inbound_reqs h.ok.time0 h.ok.timeH (h.ok.good x) (s.unmapped hd.dst) (s.mapped hd.src) m hok).1.req⟩
-
-/-- a clock advance that does not jump over the tick of `c`: the invariant stays; before the tick is due nothing
-happens to `c`; the tick itself re-arms the timer at least `minInterval` later -/
-theorem FInv.advance {s : Sys} (h : FInv nat blocked SLA SLB SR liteA liteB T0 H c s) {T t : Nat} (hle : s.now ≤ T) (hH : T ≤ H)
-    (ht : (s.agent c).nextTick = some t) (hT : T ≤ t) :
-    FInv nat blocked SLA SLB SR liteA liteB T0 H c (s.advance T).1 ∧ AdvEffect T0 T s (s.advance T).1 ∧
-    (T < t → (s.advance T).1.agent c = s.agent c) ∧
-    (T = t → ∃ t', ((s.advance T).1.agent c).nextTick = some t' ∧ t + Config.minInterval (s.agent c).cfg ≤ t') := by
-  obtain ⟨hok', he⟩ := advance_effect h.ok T (Nat.le_trans h.ok.time0 hle) hH ⟨t, ht, hT⟩
-  generalize (s.advance T).1 = s' at hok' he ⊢
-  have hmap : ∀ y, s'.mapped y = s.mapped y := fun y => by simp [Sys.mapped, he.net.1]
-  have hearly : T < t → s'.agent c = s.agent c := by
-    intro hlt
-    rw [he.agent c, step_advance_early (h.ok.good c) ht hlt]
-  have hdue : T = t → ∃ t', (s'.agent c).nextTick = some t' ∧ t + Config.minInterval (s.agent c).cfg ≤ t' ∧
-      t' ≤ T + 2000000000 := by
-    intro e
-    subst e
-    obtain ⟨⟨t', h1, h2, h3⟩, _⟩ := advance_single (h.ok.good c) hH ht
-    exact ⟨t', by rw [he.agent c]; exact h1, h2, h3⟩
-  refine ⟨⟨hok', ?_, ?_⟩, he, hearly, fun e => ?_⟩
-  · rw [he.now]
-    rcases Nat.lt_or_ge T t with hlt | hge
-    · obtain ⟨t0, ht0, _, h2⟩ := h.tick
-      rw [ht] at ht0
-      cases ht0
-      exact ⟨t, by rw [hearly hlt]; exact ht, hT, by omega⟩
-    · obtain ⟨t', h1, h2, h3⟩ := hdue (Nat.le_antisymm hT hge)
-      exact ⟨t', h1, by omega, h3⟩
-  · refine h.known.keep h.ok.paired (he.lk (!c)).locals (fun y r hr => ?_) hmap (he.ids c).localPwd ?_
-    · obtain ⟨r', hr', _⟩ := (he.lk c).findRemote hr
-      exact ⟨r', hr'⟩
-    · intro d hdm
-      rw [he.flight] at hdm
-      have key : ∀ x, d ∈ dgramsOf (step (s.agent x) (.advance T)).2 → d ∈ s.inflight ∨
-          ∃ (x : Bool) (o : List Out), d ∈ dgramsOf o ∧
-            ∀ f t m, Out.dgram f t m ∈ o → m.cls = 0 → ReqOut (s.agent x) f t m :=
-        fun x hx => Or.inr ⟨x, _, hx, fun f t m hm _ => (runTimers_reqs hH 100000 (h.ok.good x) f t m hm).2⟩
-      rcases List.mem_append.mp hdm with hdm | hdm
-      · rcases List.mem_append.mp hdm with hdm | hdm
-        · exact Or.inl hdm
-        · exact key false hdm
-      · exact key true hdm
-  · obtain ⟨t', h1, h2, _⟩ := hdue e
-    exact ⟨t', h1, h2⟩
-
-end
 
 end IceProofs.C01Live
